@@ -25,7 +25,7 @@ import numpy as np
 from scipy.special import hyp0f1
 
 from orix.quaternion import Quaternion
-from orix.vector import Vector3d
+from orix.vector import Miller, Vector3d
 
 
 class Rotation(Quaternion):
@@ -392,7 +392,12 @@ class Rotation(Quaternion):
                     da.store(darr, arr)
             else:
                 da.store(darr, arr)
-            R = other.__class__(arr)
+            if isinstance(other, Miller):
+                # Keep the phase and coordinate format, as when lazy=False
+                R = other.__class__(xyz=arr, phase=other.phase)
+                R.coordinate_format = other.coordinate_format
+            else:
+                R = other.__class__(arr)
         else:
             R = super().outer(other)
 
